@@ -258,7 +258,7 @@ func C17CheckOccurs(p *C17Project) ([]string, error) {
 		if found["input"] {
 			chk(needLoc(ast.LocationInputObject, ast.LocationInputFieldDefinition))
 		}
-		if found["interface"] {
+		if row.B("iface") || row.B("ifaceChain") {
 			chk(needLoc(ast.LocationInterface))
 		}
 		if found["union"] {
@@ -347,6 +347,47 @@ func C17CheckOccurs(p *C17Project) ([]string, error) {
 			chk(fmt.Errorf("autobindModel selected but the model output package holds no hand-written Go file"))
 		}
 		found["autobind:modelOutputPackage"] = true
+	}
+	if row.B("ifaceOrphan") {
+		none, onlyIface := false, false
+		for _, d := range sch.Types {
+			if d.Kind != ast.Interface || !userType(d) {
+				continue
+			}
+			objs, subs := 0, 0
+			for _, pt := range sch.PossibleTypes[d.Name] {
+				if pt.Kind == ast.Object {
+					objs++
+				}
+			}
+			for _, x := range sch.Types {
+				if x.Kind == ast.Interface {
+					for _, in := range x.Interfaces {
+						if in == d.Name {
+							subs++
+						}
+					}
+				}
+			}
+			if objs == 0 && subs == 0 {
+				none = true
+			}
+			if objs == 0 && subs > 0 {
+				onlyIface = true
+			}
+		}
+		if !none || !onlyIface {
+			chk(fmt.Errorf("feature ifaceOrphan selected but there is no interface without implementors / implemented only by an interface"))
+		}
+		found["interface:noImplementor"], found["interface:implementedOnlyByInterface"] = true, true
+	}
+	if row.B("schemaInExecDir") {
+		for _, n := range names {
+			if !strings.HasPrefix(n, "graph/") {
+				chk(fmt.Errorf("schemaInExecDir selected but schema file %s is outside the exec directory", n))
+			}
+		}
+		found["schemaFilesInsideExecDir"] = true
 	}
 	if row.B("idEnumClash") {
 		chk(need("idEnumClash", "enumClash"))
